@@ -31,7 +31,8 @@ RULE = (
     "all 13 dump formats through dump_one, dump_many for 4 formats, write_input for both programs, corpus conversions with and "
     "without allow_changes, failing calls); per case a subset of 12 calls: baseline digests from fresh subprocesses, then a shuffled "
     "history with repetitions (3 rounds) in one interpreter with table snapshots around every call, or N threads (2,4,8,16) running "
-    "permutations under the yield injector. distinct = distinct (mode, call id, position class / thread count); non-trivial = the "
+    "permutations under the yield injector; per format, all generated files of the specification-following writers (every model class) "
+    "loaded in shuffled orders with repetitions vs alone in fresh interpreters, and per dump format generated objects of every class dumped in shuffled orders. distinct = distinct (mode, call id, position class / thread count); non-trivial = the "
     "call ran in both settings and the digests were compared. The number of distinct yield points and observed context switches "
     "is recorded."
 )
@@ -149,8 +150,152 @@ def execute(spec, workdir):
                 return "RETURNED"
     except Exception as exc:
         msg = str(exc).replace(workdir, "<WORKDIR>").replace(os.path.dirname(workdir), "<TMP>")
-        return f"EXC:{type(exc).__name__}:{msg}"
+        return f"EXC:{type(exc).__name__}:{msg}".replace("\n", "\\n")
     raise ValueError(op)
+
+
+def gen_specs(writer, tier):
+    """Call specs on generated files: every model class of one specification-following writer (shared with C03)."""
+    from ..ref import spec_writers
+
+    mod = spec_writers.all_writers()[writer]
+    out = []
+    for klass in mod.CLASSES:
+        for rep in range(1 if tier == "quick" else 2):
+            out.append({"op": "load_gen", "writer": writer, "klass": klass, "rep": rep})
+    return out
+
+
+def dump_specs(fmt, tier):
+    """Call specs dumping generated objects of every class of one format (plus wavefunction objects needing conversion)."""
+    out = []
+    for klass in ("small", "medium", "wide"):
+        for k in range(2 if tier == "quick" else 4):
+            out.append({"op": "dump_gen", "fmt": fmt, "klass": klass, "k": k, "allow": False})
+    if fmt in ("fchk", "molden", "molekel", "wfn", "wfx"):
+        for k, spin in enumerate(["restricted", "rohf", "unrestricted", "aminusb", "aminusb_zero", "fractional"]):
+            out.append({"op": "dump_gen", "fmt": fmt, "klass": "wfn:" + spin, "k": k, "allow": True})
+    return out
+
+
+def execute_dump(spec, workdir):
+    import iodata
+
+    fmt = spec["fmt"]
+    rng = gb.rng_for(16, 11, spec["k"], sum(map(ord, fmt + spec["klass"])))
+    if spec["klass"].startswith("wfn:"):
+        from ..gen import wfnobjects as wo
+
+        data, _ = wo.make(rng, fmt, nbasis_max=14, spin=spec["klass"][4:], ghosts="none" if fmt == "molekel" else None)
+    else:
+        data, _ = go.make(fmt, rng, spec["klass"])
+    os.makedirs(workdir, exist_ok=True)
+    path = os.path.join(workdir, go.filename(fmt))
+    with warnings.catch_warnings():
+        warnings.simplefilter("ignore")
+        try:
+            iodata.dump_one(data, path, fmt=go.explicit_fmt(fmt), allow_changes=spec["allow"])
+            return _file_digest(path)
+        except Exception as exc:
+            return f"EXC:{type(exc).__name__}:" + str(exc).replace(workdir, "<WORKDIR>").replace("\n", "\\n")
+
+
+def execute_gen(spec, workdir):
+    """Write the generated file of a spec into workdir and load it (load_one, and load_many where the format has it)."""
+    import iodata
+
+    if spec["op"] == "dump_gen":
+        return execute_dump(spec, workdir)
+
+    from ..ref import spec_writers
+
+    mod = spec_writers.all_writers()[spec["writer"]]
+    rng = gb.rng_for(16, 5, spec["rep"], sum(map(ord, spec["writer"] + spec["klass"])))
+    model = mod.generate(rng, spec["klass"])
+    os.makedirs(workdir, exist_ok=True)
+    path = os.path.join(workdir, getattr(mod, "filename", lambda m: mod.FILENAME)(model))
+    with open(path, "w") as fh:
+        fh.write(mod.write(model))
+    fmt = mod.FORMAT if getattr(mod, "EXPLICIT_FMT", False) else None
+    kwargs = getattr(mod, "load_kwargs", lambda m: {})(model)
+    parts = []
+    with warnings.catch_warnings():
+        warnings.simplefilter("ignore")
+        try:
+            parts.append(_digest_obj(iodata.load_one(path, fmt=fmt, **kwargs)))
+        except Exception as exc:
+            parts.append(f"EXC:{type(exc).__name__}:" + str(exc).replace(workdir, "<WORKDIR>").replace("\n", "\\n"))
+        if hasattr(iodata.api.FORMAT_MODULES[mod.FORMAT], "load_many"):
+            try:
+                frames = list(iodata.load_many(path, fmt=fmt, **kwargs))
+                parts.append("MANY:" + hashlib.sha256("".join(snap.digest(f) for f in frames).encode()).hexdigest() + f":{len(frames)}")
+            except Exception as exc:
+                parts.append(f"EXC:{type(exc).__name__}:" + str(exc).replace(workdir, "<WORKDIR>").replace("\n", "\\n"))
+    return "|".join(parts)
+
+
+def baseline_gen(specs, root):
+    out = {}
+    procs = []
+    env = dict(os.environ, VF_REPO=bootstrap.REPO, PYTHONHASHSEED="0")
+    for k, spec in enumerate(specs):
+        wd = os.path.join(root, f"gbase{k}")
+        p = subprocess.Popen([sys.executable, "-m", "vf.checks.c16", "--exec-gen", json.dumps(spec), wd], cwd=bootstrap.VERIF_ROOT, env=env,
+                             stdout=subprocess.PIPE, stderr=subprocess.PIPE, text=True)
+        procs.append((k, p))
+        if len(procs) >= 4:
+            k0, p0 = procs.pop(0)
+            o, e = p0.communicate(timeout=600)
+            out[k0] = _parse(o, e)
+    for k0, p0 in procs:
+        o, e = p0.communicate(timeout=600)
+        out[k0] = _parse(o, e)
+    return out
+
+
+def case_format_history(case):
+    """All generated files of ONE format loaded in shuffled orders with repetitions in one interpreter: state that a reader
+    keeps between calls (lookup tables filled while parsing, caches keyed by less than the arguments) shows as a digest that
+    differs from the one obtained alone in a fresh interpreter."""
+    specs = dump_specs(case["writer"][5:], case["tier"]) if case["writer"].startswith("dump:") else gen_specs(case["writer"], case["tier"])
+    rng = gb.rng_for(16, case["seed"], 3, sum(map(ord, case["writer"])))
+    root = tempfile.mkdtemp(prefix="vf_c16g_")
+    viols, feats = [], []
+    counters = {"baseline_subprocesses": 0, "calls_in_history": 0, "digest_comparisons": 0, "table_snapshots": 0, "format_histories": 1}
+    try:
+        base = baseline_gen(specs, root)
+        counters["baseline_subprocesses"] = len(base)
+        for k, dg in base.items():
+            if dg.startswith("NO-DIGEST"):
+                return {"status": "inconclusive", "reason": f"baseline subprocess of {specs[k]} gave no digest: {dg}"}
+        seq = []
+        for _round in range(3):
+            seq += [int(i) for i in rng.permutation(len(specs))]
+        t0 = tables.tables_snapshot()
+        for pos, k in enumerate(seq):
+            dg = execute_gen(specs[k], os.path.join(root, f"gbase{k}"))  # the same path as in the baseline run
+            counters["calls_in_history"] += 1
+            counters["digest_comparisons"] += 1
+            if dg != base[k]:
+                prev = [specs[j]["klass"] for j in seq[max(0, pos - 3):pos]]
+                viols.append(_v(f"history-dependent:{'dump' if specs[k]['op'] == 'dump_gen' else 'load'}:{case['writer']}", f"{specs[k]['op']} of a generated {case['writer']} case (class {specs[k]['klass']}) at "
+                                f"position {pos} of a shuffled history gives {dg[:100]} but {base[k][:100]} alone in a fresh interpreter; "
+                                f"preceding classes: {prev}"))
+            t1 = tables.tables_snapshot()
+            counters["table_snapshots"] += 1
+            dd = tables.tables_diff(t0, t1)
+            if dd:
+                viols.append(_v(f"module-table-modified:{dd[0][0].split('[')[0]}", f"module table changed by loading {specs[k]}: {dd[0]}"))
+                t0 = t1
+            feats.append(f"format-history:{case['writer']}:{specs[k]['klass']}")
+    finally:
+        shutil.rmtree(root, ignore_errors=True)
+    bykey = {}
+    for v in viols:
+        bykey.setdefault(v["key"], v)
+    sample = {"kind": "format_history", "writer": case["writer"], "files": len(specs), "history_length": len(seq)}
+    return {"status": "violation" if viols else "ok", "violations": list(bykey.values()), "features": sorted(set(feats)), "counters": counters,
+            "sample": sample}
 
 
 def baseline(spec_ids, root):
@@ -188,6 +333,12 @@ def plan(tier, seed):
         cases.append({"kind": "history", "i": i, "seed": seed, "npool": n})
     for i, nt in enumerate([2, 4, 8, 16] * (2 if tier == "quick" else 10)):
         cases.append({"kind": "threads", "i": i, "nthreads": nt, "seed": seed, "npool": n})
+    from ..ref import spec_writers
+
+    for name in sorted(spec_writers.all_writers()):
+        cases.append({"kind": "format_history", "writer": name, "seed": seed, "tier": tier})
+    for fmt in go.DUMP_FORMATS:
+        cases.append({"kind": "format_history", "writer": "dump:" + fmt, "seed": seed, "tier": tier})
     return cases
 
 
@@ -202,6 +353,8 @@ def describe(spec):
 
 
 def run_case(case):
+    if case["kind"] == "format_history":
+        return case_format_history(case)
     specs = pool()
     rng = gb.rng_for(16, case["seed"], case["i"], 1 if case["kind"] == "history" else 2)
     chosen = sorted(int(i) for i in rng.choice(len(specs), size=min(12, len(specs)), replace=False))
@@ -305,3 +458,7 @@ if __name__ == "__main__":
         warnings.simplefilter("ignore")
         spec = pool()[int(sys.argv[2])]
         print("DIGEST " + execute(spec, sys.argv[3]))
+    if len(sys.argv) == 4 and sys.argv[1] == "--exec-gen":
+        bootstrap.init()
+        warnings.simplefilter("ignore")
+        print("DIGEST " + execute_gen(json.loads(sys.argv[2]), sys.argv[3]))
